@@ -82,7 +82,7 @@ func (lc *lisConn) recv(d time.Duration) ([]byte, error) {
 // closed by the broker (C20 "every open connection is closed"); one the kernel still held is reset by closing the listener
 func runAcceptRace() (*stallObs, string) {
 	obs := &stallObs{OK: true, Closed: true}
-	for round := 0; round < 400; round++ {
+	for round := 0; round < 160; round++ {
 		lo, srv, cleanup, msg := newLisServer()
 		if msg != "" {
 			return lo2stall(lo), msg
@@ -129,7 +129,7 @@ func runAcceptRace() (*stallObs, string) {
 		open := 0
 		for _, cn := range got {
 			closed := false
-			dl := time.Now().Add(2500 * time.Millisecond) // the connect timeout is 1 s (x 1.5)
+			dl := time.Now().Add(1400 * time.Millisecond) // the connect timeout is 1 s
 			buf := make([]byte, 16)
 			for time.Now().Before(dl) && !closed {
 				_ = cn.SetReadDeadline(time.Now().Add(250 * time.Millisecond))
